@@ -128,7 +128,7 @@ def _main(argv):
                 "by TLC against the property-level specification; distinct = distinct scripts",
         "exhaustive": False,
         "suites": [{k: r.get(k) for k in ("suite", "kind", "params", "mc", "tlc_scripts", "n_scripts", "n_events",
-                                          "wall_s", "cache_hit", "extra")} for r in results],
+                                          "wall_s", "cache_hit", "extra", "drift")} for r in results],
     }
     if states > 0 and trans > 0:
         cov["states"] = states
@@ -151,6 +151,11 @@ def _main(argv):
         "known_findings_seen": [f.get("id") for f, _ in known_hits],
     }
     C.write_evidence(prop, ev)
+    for r in results:
+        d = r.get("drift")
+        if isinstance(d, dict) and d.get("drifted"):
+            print("DRIFT property=%s suite=%s: the code deviates from the implementation-shaped model on %s of %s replayed scripts "
+                  "(not a property violation; the model needs updating)" % (prop, r.get("suite"), d.get("drifted"), d.get("scripts")))
     for f, v in known_hits[:1]:
         print("KNOWN-FINDING: property=%s %s" % (prop, f.get("what", f.get("id"))))
     if viols:
